@@ -26,6 +26,7 @@ ASSUMPTIONS = ["faults are injected at Python-level open/mkdir/write calls (not 
 REQUIRED_OBS = {"invocations": 150, "set:tools": 11, "default_output_forms": 30, "trailing_slash_forms": 30,
                 "fault_points_injected": 150, "faults_surfaced": 120, "missing_binary_forms": 6,
                 "audit_events": 500, "realpool_faults_surfaced": 10}
+CHAIN = {"quick": 0, "thorough": 0}     # every invocation form already runs in one process per case
 TIMEOUT = {"quick": 900, "thorough": 3600}
 
 RECIPE = scenarios.RECIPE
